@@ -256,11 +256,21 @@ def replay(mod, path: str) -> int:
     return 1
 
 
+def _work_parent() -> str:
+    """Scratch location: tmpfs when available (per-case file operations are ~40x cheaper there)."""
+    p = os.environ.get('VERIF_WORK_PARENT')
+    if p:
+        return p
+    if os.path.isdir('/dev/shm') and os.access('/dev/shm', os.W_OK | os.X_OK):
+        return '/dev/shm'
+    return '/tmp'
+
+
 def run_property(mod, tier: str, seed: int, only_subs: Optional[List[str]] = None) -> int:
     """Run all sub-checks of a property module; write evidence; return exit code."""
     prop_id = mod.PROPERTY_ID
     t0 = time.time()
-    work_root = os.path.join(os.environ.get('VERIF_WORK_PARENT', '/tmp'), 'vx-%s-%d' % (prop_id, os.getpid()))
+    work_root = os.path.join(_work_parent(), 'vx-%s-%d' % (prop_id, os.getpid()))
     os.makedirs(work_root, exist_ok=True)
     os.environ['VERIF_WORK'] = work_root
 
